@@ -8,7 +8,7 @@
    [new_reader (finalize w) = Some r] : NewReader on the sections Finalize produced;  theorem 4 says
    that going through the byte image changes nothing ([finalize_reader]). *)
 From Coq Require Import NArith List Lia.
-Require Import Pk.IndexFormat Pk.IndexFormatCodec Pk.IndexFormatHosts Pk.IndexFormatWriter Pk.IndexFormatData Pk.IndexFormatPackets Pk.IndexFormatLookup Pk.IndexFormatRefuted.
+Require Import Pk.IndexFormat Pk.IndexFormatCodec Pk.IndexFormatHosts Pk.IndexFormatWriter Pk.IndexFormatData Pk.IndexFormatPackets Pk.IndexFormatLookup Pk.IndexFormatScan Pk.IndexFormatRefuted.
 Import ListNotations.
 Open Scope N_scope.
 
@@ -115,22 +115,38 @@ Qed.
 Theorem C01_varint_roundtrip : forall sz rest, sz < P64 -> read_varint (varint sz ++ rest) 0 = Some (sz, rest).
 Proof. exact read_varint_varint. Qed.
 
-(* The replay loop of Stream.Data() on what AddStream wrote for stream s (payload client->server, payload
-   server->client, segmentation varints, followed by anything): the chunks' bytes concatenated per direction
-   are the stored payload of that direction, and the chunk directions change exactly where the non-empty
-   stored data changes direction (compress drops repeats; nz_dirs = directions of the non-empty runs).
-   _partial: the two time-group lists that the first loop of Data() collects from the packet records are
-   universally quantified here (any positive sizes adding up to the payload per direction); that the packet
-   scan (skip counters, 64 KiB split records, time wrap) delivers such lists, and the chunk times, are
-   checked by the correspondence run only. *)
-Theorem C01_data_replay_partial : forall s tail ptc pts,
-  lenN (stream_payload s false) + lenN (stream_payload s true) < P64 ->
-  total ptc = lenN (stream_payload s false) -> total pts = lenN (stream_payload s true) -> pos_sizes ptc -> pos_sizes pts ->
-  exists cks, replay (S (length (stream_seg s ++ tail))) false (stream_seg s ++ tail)
-                     (stream_payload s false) (stream_payload s true) ptc pts = Some cks /\
-              payload_dir false cks = stream_payload s false /\ payload_dir true cks = stream_payload s true /\
-              compress (map c_dir cks) = compress (nz_dirs (data_runs (s_packets s) (s_data s))).
-Proof. exact data_replay_stream. Qed.
+(* Stream.Data() of a stored stream, for EVERY list of streams: the chunks' bytes concatenated per direction are the
+   stored payload of that direction, and the chunk directions change exactly where the non-empty stored data
+   changes direction (compress drops repeats; nz_dirs (data_runs ..) = directions of the non-empty maximal runs).
+   Covers: 64 KiB split records, SkipPacketsForData as written by AddStream (0..254, 255 = "255+"; proved sound:
+   the records jumped over carry no data and are never the last), skipping switched off while time wraps are
+   expected, the 50 ms group merge (any grouping), the segmentation varints incl. zero-length runs.
+   wf_data s: data items name existing packets in strictly increasing packet order (one item per packet), every
+   packet has a source.  Not stated: the Time field of the chunks (compared on every correspondence run). *)
+Theorem C01_data_of_stored_stream : forall gcap L w r,
+  16 < gcap <= 4 * P16 ->
+  Forall (fun ids => wf_meta (snd ids)) L ->
+  add_streams gcap new_writer L = Some w -> new_reader (finalize w) = Some r -> lenN (w_packets w) < P32 ->
+  forall k id s rec, nth_error L k = Some (id, s) -> s_packets s <> [] -> wf_data s ->
+    lenN (stream_payload s false) + lenN (stream_payload s true) < P64 ->
+    nth_error (all_streams r) k = Some rec ->
+    exists cks, data r rec = Some cks /\
+                payload_dir false cks = stream_payload s false /\ payload_dir true cks = stream_payload s true /\
+                compress (map c_dir cks) = compress (nz_dirs (data_runs (s_packets s) (s_data s))).
+Proof. exact data_stored. Qed.
+
+(* component: the first loop of Data() with sound skip counters collects exactly the data sizes per direction *)
+Theorem C01_data_scan_totals : forall fuel ps expect reft lastrel prev ptc pts,
+  sound ps -> (length ps < fuel)%nat -> pos_sizes ptc -> pos_sizes pts ->
+  exists ptc' pts', data_scan fuel ps expect reft lastrel prev ptc pts = Some (ptc', pts') /\
+                    total ptc' = total ptc + dsum false ps /\ total pts' = total pts + dsum true ps /\
+                    pos_sizes ptc' /\ pos_sizes pts'.
+Proof. exact data_scan_totals. Qed.
+
+(* component: the skip counters AddStream writes are sound, for every record list *)
+Theorem C01_written_skip_counters_sound : forall later R, R <> [] -> Forall flags_ok R ->
+  sound (blockify R later) /\ forall d, dsum d (blockify R later) = rsum d R.
+Proof. exact blockify_sound. Qed.
 
 (* ---------------- the reader before fix afb9f18, on the model ---------------- *)
 (* [new_reader_gen true] uses hostGroupEntry.Start as a byte offset. Capacity 20 (5 IPv4 hosts per group),
